@@ -51,6 +51,10 @@ def confusable(a, b):
         return None
     if ka == kb == "tuple" and len(a[1]) == len(b[1]):
         return combine([confusable(x, y) for x, y in zip(a[1], b[1])])
+    if ka == kb == "intfun" and a[1:9] == b[1:9] and len(a[9]) == len(b[9]):
+        return combine([confusable(x, y) for x, y in zip(a[9], b[9])])
+    if ka == kb == "intfun" and a[2:4] + a[5:9] == b[2:4] + b[5:9] and a[9] == b[9]:
+        return "funarity"      # funs differing only in arity / num_free: not identifying fields
     if ka == kb == "map" and len(a[1]) == len(b[1]):
         return "numeric" if any(value_has(k, lambda x: x[0] in ("int", "float")) for k, _ in a[1]) else None
     return None
@@ -139,6 +143,8 @@ def oracle(case, impl):
             return ("known", "C03-map-numeric-keys")
         if value_has(v, list_vs_improper_keys):
             return ("known", "C03-map-list-improper-keys")
+        if value_has(v, lambda x: key_collision(x, "funarity")):
+            return None     # the property identifies funs by their identifying fields; arity is not one
         if latin1_high(base):
             return ("known", "C03-latin1-atoms")
         return ("violation", "decoded term denotes a different value than the bytes encode")
